@@ -1,0 +1,151 @@
+//go:build verif
+
+package daemon
+
+// Contracts for the ordered daemon (property C20), read by the verification machinery in /verif.
+// Comment-only file.
+//
+// Registry invariant (monitor invariant of d.lock, while the daemon has not been cleared): shutdownOrderWorker
+// lists each name once, every listed name has an entry in workers and its order's WaitGroup exists, and the list
+// is sorted by descending shutdown order. Orders are compared through the ghost map ordOf (name -> order), which
+// agrees with the immutable shutdownOrder field of the registered worker, so that sortedness survives the removal
+// of the workers entry that precedes the removal from the list.
+//
+// stopWorkers (the ordering loop over the snapshot): ghost set cr = orders of which a running worker has been
+// cancelled. Obligation at the cancellation of a running worker: every higher order in cr has been waited for
+// (sync.wgwaited of that order's WaitGroup); on return every order in cr has been waited for.
+// shutdown: stopped is set before anything else happens. BackgroundWorker / cleanupWorker: the stopped check that
+// decides about a registry change is made under d.lock. (With the check outside the lock a worker could be
+// registered and started after the shutdown snapshot had been taken: it was never cancelled nor waited for.)
+// Given that, no registration can follow the snapshot, which is also why the unlocked reads of
+// wgPerSameShutdownOrder in stopWorkers are race-free (happens-before argument, not machine-checked: assumption).
+
+/*@
+global cr BoolArr           -- orders of which stopWorkers has cancelled a running worker (ghost)
+global sortOK Bool          -- the list had the set properties of the invariant just before sort.Slice (ghost)
+
+type OrderedDaemon
+  ghost ordOf (Array Str Int)
+  monitor lock level 1 guards workers, shutdownOrderWorker, wgPerSameShutdownOrder, ordOf, map:workers, map:wgPerSameShutdownOrder, elems:shutdownOrderWorker
+    invariant self.workers != nil ==> self.wgPerSameShutdownOrder != nil
+    invariant self.workers == nil ==> len(self.shutdownOrderWorker) == 0
+    invariant self.workers != nil ==> forall k Str :: has(self.workers, k) ==> self.workers[k] != nil && self.workers[k].handler != nil && has(self.wgPerSameShutdownOrder, self.workers[k].shutdownOrder) && self.wgPerSameShutdownOrder[self.workers[k].shutdownOrder] != nil
+    invariant self.workers != nil ==> (forall i Int :: 0 <= i && i < len(self.shutdownOrderWorker) ==> has(self.workers, self.shutdownOrderWorker[i]) && self.workers[self.shutdownOrderWorker[i]] != nil && self.workers[self.shutdownOrderWorker[i]].shutdownOrder == sel(self.ordOf, self.shutdownOrderWorker[i]) && has(self.wgPerSameShutdownOrder, sel(self.ordOf, self.shutdownOrderWorker[i])) && self.wgPerSameShutdownOrder[sel(self.ordOf, self.shutdownOrderWorker[i])] != nil)
+    invariant self.workers != nil ==> (forall i Int, j Int :: 0 <= i && i < j && j < len(self.shutdownOrderWorker) ==> sel(self.ordOf, self.shutdownOrderWorker[i]) >= sel(self.ordOf, self.shutdownOrderWorker[j]))
+    invariant self.workers != nil ==> (forall i Int, j Int :: 0 <= i && i < j && j < len(self.shutdownOrderWorker) ==> self.shutdownOrderWorker[i] != self.shutdownOrderWorker[j])
+  callback stoppedCtxCancel()
+
+type worker
+  callback ctxCancel()
+
+func OrderedDaemon.IsStopped
+  requires d != nil
+  ensures r0 <==> aload(d.stopped)
+func OrderedDaemon.IsRunning
+  requires d != nil
+  ensures r0 <==> aload(d.running)
+
+-- removes the (only) occurrence of name; the rest keeps its relative order, hence stays sorted and duplicate-free
+func OrderedDaemon.removeWorkerFromShutdownOrder
+  requires d != nil && held(d.lock)
+  requires (forall i Int, j Int :: 0 <= i && i < j && j < len(d.shutdownOrderWorker) ==> sel(d.ordOf, d.shutdownOrderWorker[i]) >= sel(d.ordOf, d.shutdownOrderWorker[j]))
+  requires (forall i Int, j Int :: 0 <= i && i < j && j < len(d.shutdownOrderWorker) ==> d.shutdownOrderWorker[i] != d.shutdownOrderWorker[j])
+  modifies d.shutdownOrderWorker, elems(d.shutdownOrderWorker)
+  loop 1 invariant d.shutdownOrderWorker == old(d.shutdownOrderWorker) && elems(d.shutdownOrderWorker) == old(elems(d.shutdownOrderWorker)) && forall k Int :: 0 <= k && k <= rangeindex ==> d.shutdownOrderWorker[k] != name
+  ensures (forall i Int, j Int :: 0 <= i && i < j && j < len(d.shutdownOrderWorker) ==> sel(d.ordOf, d.shutdownOrderWorker[i]) >= sel(d.ordOf, d.shutdownOrderWorker[j]))
+  ensures (forall i Int, j Int :: 0 <= i && i < j && j < len(d.shutdownOrderWorker) ==> d.shutdownOrderWorker[i] != d.shutdownOrderWorker[j])
+  ensures forall i Int :: 0 <= i && i < len(d.shutdownOrderWorker) ==> d.shutdownOrderWorker[i] != name
+  ensures len(d.shutdownOrderWorker) == old(len(d.shutdownOrderWorker)) || len(d.shutdownOrderWorker) == old(len(d.shutdownOrderWorker)) - 1
+  ensures forall i Int :: 0 <= i && i < len(d.shutdownOrderWorker) ==> d.shutdownOrderWorker[i] == old(d.shutdownOrderWorker[i]) || d.shutdownOrderWorker[i] == old(d.shutdownOrderWorker[i + 1])
+  ensures forall i Int :: 0 <= i && i < len(d.shutdownOrderWorker) && len(d.shutdownOrderWorker) == old(len(d.shutdownOrderWorker)) ==> d.shutdownOrderWorker[i] == old(d.shutdownOrderWorker[i])
+
+-- snapshot of the registry taken inside one read section
+func OrderedDaemon.getWorkersAndShutdownOrder
+  opt sequential
+  requires d != nil && unlocked(d.lock) && d.workers != nil
+  loop 1 invariant rheld(d.lock) && (forall k Str :: has(workers, k) ==> has(d.workers, k) && workers[k] == d.workers[k]) && (forall k Str :: visited(k) ==> has(workers, k))
+  ensures unlocked(d.lock) && r0 != nil
+  ensures forall k Str :: (has(r0, k) <==> has(d.workers, k)) && (has(r0, k) ==> r0[k] == d.workers[k])
+  ensures len(r1) == len(d.shutdownOrderWorker) && forall i Int :: 0 <= i && i < len(r1) ==> r1[i] == d.shutdownOrderWorker[i]
+
+-- the ordering loop
+func OrderedDaemon.stopWorkers
+  opt sequential
+  opt unguarded-read wgPerSameShutdownOrder
+  requires d != nil && unlocked(d.lock) && d.workers != nil && moninv(d)
+  requires forall o Int :: !sel(cr, o)
+  modifies ghost(cr), ghost(sync.wgwaited), worker.running
+  loop 1 invariant forall o Int :: sel(cr, o) ==> o >= prevPriority
+  loop 1 invariant forall o Int :: sel(cr, o) && o > prevPriority ==> sel(sync.wgwaited, d.wgPerSameShutdownOrder[o])
+  loop 1 invariant forall o Int :: old(sel(sync.wgwaited, o)) ==> sel(sync.wgwaited, o)
+  loop 1 invariant has(d.wgPerSameShutdownOrder, prevPriority) && d.wgPerSameShutdownOrder[prevPriority] != nil
+  loop 1 invariant forall k Int :: rangeindex < k && k < len(shutdownOrderWorker) ==> workers[shutdownOrderWorker[k]].shutdownOrder <= prevPriority
+  -- a running worker is cancelled only after every higher order with a cancelled running worker was waited for
+  ghost before call worker#ctxCancel #2: assert forall o Int :: sel(cr, o) && o > worker.shutdownOrder ==> sel(sync.wgwaited, d.wgPerSameShutdownOrder[o])
+  ghost before call worker#ctxCancel #2: cr = upd(cr, worker.shutdownOrder, true)
+  -- and on return every such order has been waited for
+  ensures forall o Int :: sel(cr, o) ==> sel(sync.wgwaited, d.wgPerSameShutdownOrder[o])
+  ensures unlocked(d.lock)
+
+func OrderedDaemon.clear
+  requires d != nil && unlocked(d.lock)
+  modifies everything
+  ensures unlocked(d.lock) && (aload(d.stopped) <==> old(aload(d.stopped))) && (aload(d.running) <==> old(aload(d.running)))
+
+-- stopped is set before the stop sequence starts (so that no registration can slip in behind the snapshot)
+func OrderedDaemon.shutdown
+  opt sequential
+  requires d != nil && unlocked(d.lock) && d.stoppedCtxCancel != nil
+  requires aload(d.running) ==> d.workers != nil && moninv(d) && (forall o Int :: !sel(cr, o))
+  modifies everything
+  ghost before call OrderedDaemon#stoppedCtxCancel: assert aload(d.stopped)
+  ghost before call OrderedDaemon.stopWorkers: assert aload(d.stopped)
+  ensures aload(d.stopped) && !aload(d.running)
+
+-- a finished worker leaves the registry, unless the daemon was stopped meanwhile; the stopped check is made under the lock
+func OrderedDaemon.cleanupWorker
+  requires d != nil && unlocked(d.lock)
+  modifies monitor(d), allelems(string)
+  ghost before call OrderedDaemon.IsStopped: assert held(d.lock)
+  ensures unlocked(d.lock)
+-- starts the registered worker: counts it in its order's WaitGroup before the goroutine exists
+func OrderedDaemon.runBackgroundWorker
+  requires d != nil && held(d.lock) && d.workers != nil && has(d.workers, name) && d.workers[name] != nil && backgroundWorker != nil
+  requires d.wgPerSameShutdownOrder != nil && has(d.wgPerSameShutdownOrder, d.workers[name].shutdownOrder) && d.wgPerSameShutdownOrder[d.workers[name].shutdownOrder] != nil
+  modifies worker.running
+
+-- the worker goroutine: handler, then Done on the order's WaitGroup, then cleanup, then running = false
+func OrderedDaemon.runBackgroundWorker$1
+  opt thread
+  requires d != nil && *d != nil && worker != nil && *worker != nil && shutdownOrderWaitGroup != nil && *shutdownOrderWaitGroup != nil && backgroundWorker != nil && *backgroundWorker != nil && name != nil
+  requires unlocked((*d).lock)
+  callback backgroundWorker(ctx)          -- the handler cannot reach the variables this closure captured
+  modifies everything
+
+-- the comparison handed to sort.Slice: descending shutdown order
+func OrderedDaemon.BackgroundWorker$1
+  requires d != nil && *d != nil && (*d).workers != nil && 0 <= i && i < len((*d).shutdownOrderWorker) && 0 <= j && j < len((*d).shutdownOrderWorker)
+  requires has((*d).workers, (*d).shutdownOrderWorker[i]) && (*d).workers[(*d).shutdownOrderWorker[i]] != nil && has((*d).workers, (*d).shutdownOrderWorker[j]) && (*d).workers[(*d).shutdownOrderWorker[j]] != nil
+  requires held((*d).lock)
+  ensures r0 <==> (*d).workers[(*d).shutdownOrderWorker[i]].shutdownOrder > (*d).workers[(*d).shutdownOrderWorker[j]].shutdownOrder
+
+-- registration: refused after stop (decided under the lock), refused for a name that is still running; keeps the
+-- registry invariant. sort.Slice is assumed to permute the list (keeping "every listed name is registered" and
+-- "no duplicates") and to leave it sorted by the comparison above.
+func OrderedDaemon.BackgroundWorker
+  requires d != nil && unlocked(d.lock) && (!aload(d.stopped) ==> d.workers != nil) && handler != nil
+  modifies everything
+  callback handler(ctx)
+  ghost before call OrderedDaemon.IsStopped: assert held(d.lock)
+  ghost before call Slice: d.ordOf = upd(d.ordOf, name, shutdownOrder)
+  ghost before call Slice: sortOK = ((forall i Int :: 0 <= i && i < len(d.shutdownOrderWorker) ==> has(d.workers, d.shutdownOrderWorker[i]) && d.workers[d.shutdownOrderWorker[i]] != nil && d.workers[d.shutdownOrderWorker[i]].shutdownOrder == sel(d.ordOf, d.shutdownOrderWorker[i]) && has(d.wgPerSameShutdownOrder, sel(d.ordOf, d.shutdownOrderWorker[i])) && d.wgPerSameShutdownOrder[sel(d.ordOf, d.shutdownOrderWorker[i])] != nil) && (forall i Int, j Int :: 0 <= i && i < j && j < len(d.shutdownOrderWorker) ==> d.shutdownOrderWorker[i] != d.shutdownOrderWorker[j]))
+  ghost after call Slice: assume sortOK ==> (forall i Int :: 0 <= i && i < len(d.shutdownOrderWorker) ==> has(d.workers, d.shutdownOrderWorker[i]) && d.workers[d.shutdownOrderWorker[i]] != nil && d.workers[d.shutdownOrderWorker[i]].shutdownOrder == sel(d.ordOf, d.shutdownOrderWorker[i]) && has(d.wgPerSameShutdownOrder, sel(d.ordOf, d.shutdownOrderWorker[i])) && d.wgPerSameShutdownOrder[sel(d.ordOf, d.shutdownOrderWorker[i])] != nil) && (forall i Int, j Int :: 0 <= i && i < j && j < len(d.shutdownOrderWorker) ==> d.shutdownOrderWorker[i] != d.shutdownOrderWorker[j]) && (forall i Int, j Int :: 0 <= i && i < j && j < len(d.shutdownOrderWorker) ==> sel(d.ordOf, d.shutdownOrderWorker[i]) >= sel(d.ordOf, d.shutdownOrderWorker[j]))
+  ensures unlocked(d.lock)
+  ensures old(aload(d.stopped)) ==> r0 != nil
+
+func OrderedDaemon.Start
+  requires d != nil && unlocked(d.lock) && (!aload(d.stopped) ==> d.workers != nil)
+  modifies everything
+  loop 1 invariant held(d.lock) && moninv(d)
+  ensures unlocked(d.lock)
+@*/
